@@ -107,6 +107,7 @@ func RunSelfTests(repo, verif, id string, run func(*Ctx)) *SelfTestResult {
 			res.CaughtBy = append(res.CaughtBy, fmt.Sprintf("%s: %v", e.Name(), f))
 		}
 		prog = nil
+		ResetCaches()
 		debug.FreeOSMemory()
 	}
 	return res
